@@ -72,7 +72,9 @@ HOSTILE = ['inbox', 'Inbox', 'INBOX/x', 'a', 'a/', 'a//b', '*', '%', 'a"b',
            'a\x0cc', 'a\x1dc', 'a\x85c', 'a\u2028c', 'a\rc', ' a', 'a ',
            # names of the directories and files a maildir consists of
            'cur', 'new', 'tmp', 'a/cur', 'cur/x', 'dovecot-uidlist',
-           'subscriptions', 'a/dovecot-uidlist']
+           'subscriptions', 'a/dovecot-uidlist',
+           # str.upper() maps a dotless i to I: not a spelling of INBOX
+           '\u0131nbox', '\u0131NBOX']
 
 
 # names a maildir directory consists of (fs layout: cannot be mailboxes)
@@ -90,7 +92,7 @@ def probe_alphabet():
                         '%/%/%', 'A*', '*x*', 'old'):
                 R.append(D(op, ref, pat))
     for n in ['INBOX', 'inbox', 'a', 'a/b', 'c', 'd', 'old', 'zz', 'a/', 'd/e',
-              'd/e/f', 'a\nb', 'é', 'cur', 'a/new', 'dovecot-uidlist',
+              'd/e/f', 'a\nb', 'é', 'cur', 'a/new', 'dovecot-uidlist', '\u0131nbox',
               'a/dovecot-keywords']:
         R.append(D('STATUS', n))
     M = []   # mutations
@@ -106,7 +108,8 @@ def probe_alphabet():
                  ('cur', 'x'), ('a', 'tmp'), ('a', 'c/cur'), ('a/new', 'y'),
                  # a source that is not there, a target whose superiors
                  # would have to be made
-                 ('zz', 'q/r/s'), ('zz', 'a/x/y'), ('zz', 'zz/y')]:
+                 ('zz', 'q/r/s'), ('zz', 'a/x/y'), ('zz', 'zz/y'),
+                 ('a', '\u0131nbox')]:
         M.append(D('RENAME', a, b))
     for n in ['a', 'zz', 'INBOX']:
         M.append(D('UNSUBSCRIBE', n))
@@ -234,7 +237,7 @@ class Model:
         ident_moves = {}            # new name -> old name
         if op == 'CREATE':
             n = names[0]
-            if n.upper() == 'INBOX' or m.exists(n):
+            if ns.is_inbox(n) or m.exists(n):
                 exp_conds = {'NO'}
             elif n.endswith('/') and n != '/':
                 exp_conds = {'OK', 'NO'}
@@ -247,7 +250,7 @@ class Model:
             elif self.kind != 'dict' and '/' in n and (not all(
                     m.exists('/'.join(n.split('/')[:k]))
                     for k in range(1, n.count('/') + 1))
-                    or n.split('/')[0].upper() == 'INBOX'):
+                    or ns.is_inbox(n.split('/')[0])):
                 # the maildir layouts want superior folders to exist
                 # (creating superior names is a SHOULD in RFC 3501 6.3.3)
                 exp_conds = {'OK', 'NO'}
@@ -258,7 +261,7 @@ class Model:
                 new_names.add(n)
         elif op == 'DELETE':
             n = names[0]
-            if n.upper() == 'INBOX' or not m.exists(n):
+            if ns.is_inbox(n) or not m.exists(n):
                 exp_conds = {'NO'}
             elif m.inferiors(n):
                 exp_conds = {'OK', 'NO'}
@@ -267,33 +270,33 @@ class Model:
             else:
                 new_names.discard(n)
         elif op == 'RENAME' and names[0] == names[1] and \
-                m.exists(names[0]) and names[0].upper() != 'INBOX':
+                m.exists(names[0]) and not ns.is_inbox(names[0]):
             # onto itself: refusing (the target exists) or a no-op
             exp_conds = {'OK', 'NO'}
         elif op == 'RENAME':
             a, b = names
             collide = False
-            if a.upper() != 'INBOX':
+            if not ns.is_inbox(a):
                 for inf in m.inferiors(a):
                     tgt = b + inf[len(a):]
                     if m.exists(tgt) and not (tgt == inf):
                         collide = True
             if a in m.implied_parents() and not m.exists(b) \
-                    and b.upper() != 'INBOX' and not collide:
+                    and not ns.is_inbox(b) and not collide:
                 # renaming a \Noselect placeholder that has inferiors: moving
                 # the inferiors or refusing are both admissible
                 exp_conds = {'OK', 'NO'}
                 strict = False
-            elif not m.exists(a) or m.exists(b) or b.upper() == 'INBOX' \
+            elif not m.exists(a) or m.exists(b) or ns.is_inbox(b) \
                     or collide:
                 exp_conds = {'NO'}
-            elif b.startswith(a + '/') and a.upper() != 'INBOX':
+            elif b.startswith(a + '/') and not ns.is_inbox(a):
                 exp_conds = {'OK', 'NO'}      # rename into own subtree
                 strict = False
             elif b in m.implied_parents():
                 exp_conds = {'OK', 'NO'}      # onto a \Noselect placeholder
                 strict = False
-            elif a.upper() == 'INBOX':
+            elif ns.is_inbox(a):
                 new_names.add(b)
                 ident_moves[b] = 'INBOX'
                 strict = not m.inferiors('INBOX')
@@ -330,7 +333,7 @@ class Model:
         if self.kind != 'dict' and op == 'RENAME' and '/' in names[1] and (
                 not all(m.exists('/'.join(names[1].split('/')[:k]))
                         for k in range(1, names[1].count('/') + 1))
-                or names[1].split('/')[0].upper() == 'INBOX'):
+                or ns.is_inbox(names[1].split('/')[0])):
             # maildir: the superior folders of the new name must exist
             exp_conds = exp_conds | {'NO'}
         if self.kind == 'fs' and op == 'RENAME' and any(
@@ -348,7 +351,7 @@ class Model:
             if cond == 'BAD' and exp_conds == {'NO'}:
                 pass        # refusal either way
             elif self.kind != 'dict' and op == 'RENAME' and \
-                    names[0].upper() == 'INBOX' and cond == 'NO' and \
+                    ns.is_inbox(names[0]) and cond == 'NO' and \
                     b'not supported' in (st.tagged.text or b''):
                 out.append(Violation(
                     'rename-inbox-unsupported', 'maildir:RENAME INBOX',
@@ -401,14 +404,14 @@ class Model:
                                        f', {old!r} had {want}'))
                     elif n in before[2] and not (
                             op == 'RENAME' and n == 'INBOX'
-                            and names[0].upper() == 'INBOX') and not (
+                            and ns.is_inbox(names[0])) and not (
                             op == 'APPEND' and n == m.canon(names[0])):
                         if ident_now.get(n) != before[2][n]:
                             out.append(Violation('state.identity', site,
                                        f'{site}: untouched mailbox {n!r} '
                                        f'changed {before[2][n]} -> '
                                        f'{ident_now.get(n)}'))
-                if op == 'RENAME' and names[0].upper() == 'INBOX':
+                if op == 'RENAME' and ns.is_inbox(names[0]):
                     if ident_now.get('INBOX', (0, 0, 0, 1))[3] != 0:
                         out.append(Violation('state.inbox-not-empty', site,
                                    f'{site}: INBOX after rename: '
@@ -484,7 +487,7 @@ class Model:
         must = set()
         for n in base:
             if n == 'INBOX':
-                if ns.match(full.upper(), 'INBOX'):
+                if ns.match(ns.aupper(full), 'INBOX'):
                     must.add(n)
             elif ns.match(full, n):
                 must.add(n)
